@@ -307,25 +307,45 @@ class Ctx:
                 out.setdefault(st["r"]["closure"], blk)
         return out
 
-    def find_calls_deep(self, body, callee_rx):
-        """Calls matching `callee_rx` in `body` or in closures built by it (any depth):
-        (block of `body` that makes the call or builds the outermost closure, terminator, body that
-        contains the call).  A loop written as `for` and one written as `fold`/`for_each` agree."""
+    def find_calls_deep(self, body, callee_rx, helpers=0):
+        """Calls matching `callee_rx` in `body` or in closures built by it (any depth) and, with
+        helpers=n, in private hand-written fns of the crate called from there (n levels):
+        (block of `body` that makes the call / builds the outermost closure / calls the outermost
+        helper, terminator, body that contains the call).  A loop written as `for` and one written
+        as `fold`/`for_each`, a step written inline and one factored into a helper, agree."""
         out = [(blk, t, body) for blk, t in self.find_calls(body, callee_rx)]
-        sites = self.closure_sites(body)
+        seen = {body.key}
 
-        def walk(owner_blk, b):
+        def private_callees(b):
+            res = []
+            for blk, t in b.calls():
+                c = mir.callee_of(t)
+                lst = self.bodies(body.crate).get(c) if c else None
+                if lst and lst[0].kind in ("Fn", "AssocFn") and not lst[0].derived and str(lst[0].raw.get("vis", "")).startswith("Restricted"):
+                    res.append((blk, lst[0]))
+            return res
+
+        def walk(owner_blk, b, depth):
+            sites = self.closure_sites(b)
             for c in self.closures_of(b):
-                ob = owner_blk
-                if ob is None:
-                    ob = sites.get(c.key)
-                    if ob is None:
-                        continue
+                ob = owner_blk if owner_blk is not None else sites.get(c.key)
+                if ob is None or c.key in seen:
+                    continue
+                seen.add(c.key)
                 for blk, t in self.find_calls(c, callee_rx):
                     out.append((ob, t, c))
-                walk(ob, c)
+                walk(ob, c, depth)
+            if depth < helpers:
+                for blk, h in private_callees(b):
+                    ob = owner_blk if owner_blk is not None else blk
+                    if h.key in seen:
+                        continue
+                    seen.add(h.key)
+                    for blk2, t in self.find_calls(h, callee_rx):
+                        out.append((ob, t, h))
+                    walk(ob, h, depth + 1)
 
-        walk(None, body)
+        walk(None, body, 0)
         return out
 
     def local_callees(self, body, depth=1):
@@ -346,6 +366,60 @@ class Ctx:
                             out.append(lst[0])
                             nxt.append(lst[0])
             frontier = nxt
+        return out
+
+    ADAPTERS = re.compile(r"Iterator(>)?::(map|filter_map|for_each|fold|flat_map|filter|try_for_each|try_fold|all|any|find|find_map|map_while|inspect)$")
+
+    def loop_blocks(self, body):
+        """blocks of natural loops of `body`"""
+        out = set()
+        preds = body.preds()
+        for b in body.normal_blocks():
+            for lab, tb in body.succ_edges(b):
+                if body.dominates(tb, b):
+                    loop = {tb}
+                    st = [b]
+                    while st:
+                        x = st.pop()
+                        if x in loop:
+                            continue
+                        loop.add(x)
+                        st.extend(p for p, _ in preds.get(x, []))
+                    out |= loop
+        return out
+
+    def per_element(self, body, callee_rx):
+        """Calls matching `callee_rx` that run once per element of an iteration of `body`, whichever
+        way the iteration is written: inside a closure handed to an iterator adapter, or inside a
+        `for`/`while let` loop.  Each hit: dict(owner=body containing the call, t=terminator,
+        form='adapter'|'loop', source=rendered expression of what is iterated)."""
+        hits = []
+        loops = self.loop_blocks(body)
+        nexts = [(b2, t2) for b2, t2 in self.find_calls(body, r"Iterator(>)?::next$") if b2 in loops]
+        for blk, t in self.find_calls(body, callee_rx):
+            if blk in loops:
+                src = [self.expr(body, t2["args"][0]) for _, t2 in nexts]
+                hits.append(dict(owner=body, t=t, form="loop", source=src[0] if src else ""))
+        for c in self.closures_of(body):
+            inner = [(c2, t) for c2 in [c] + self._closures_deep(c) for _, t in self.find_calls(c2, callee_rx)]
+            if not inner:
+                continue
+            src = ""
+            form = "closure"
+            for _, t2 in body.calls():
+                nm = mir.callee_of(t2) or ""
+                if self.ADAPTERS.search(nm) and any(c.key in self.expr(body, a) for a in t2["args"][1:]):
+                    src = self.expr(body, t2["args"][0])
+                    form = "adapter"
+            for c2, t in inner:
+                hits.append(dict(owner=c2, t=t, form=form, source=src))
+        return hits
+
+    def _closures_deep(self, body):
+        out = []
+        for c in self.closures_of(body):
+            out.append(c)
+            out.extend(self._closures_deep(c))
         return out
 
     def find_aggregates(self, body, adt_rx, variant=None):
